@@ -538,19 +538,23 @@ def radii(ctx):
     f = P.func('SpotDiagram.rms_spot_radius')
     res.saw(f)
     s = Code(P, f)
-    if 'r2 = wave_data[0] ** 2 + wave_data[1] ** 2' in s and \
-            'np.sqrt(np.mean(r2))' in s and '_center_spots' in s:
-        res.ok('rms radius = sqrt(mean(dx^2+dy^2)) of centred data')
+    from ..match import find_seq as _fs
+    if _fs(f, ['$r = $w[0] ** 2 + $w[1] ** 2',
+               'np.sqrt(np.mean($r[$w[2] > 0]))']) and '_center_spots' in s:
+        res.ok('rms radius = sqrt(mean(dx^2+dy^2)) of the centred, '
+               'transmitted rays')
     else:
         res.fail(ctx.finding('RADII', f, f.node,
                              'rms spot radius is not sqrt(mean(dx^2+dy^2)) '
-                             'about the centroid', construct='rms_spot_radius'))
+                             'of the transmitted rays about the centroid',
+                             construct='rms_spot_radius'))
     f = P.func('SpotDiagram.geometric_spot_radius')
     res.saw(f)
     s = Code(P, f)
-    if 'r = np.sqrt(wave_data[0] ** 2 + wave_data[1] ** 2)' in s and \
-            'np.max(r)' in s and '_center_spots' in s:
-        res.ok('geometric radius = max sqrt(dx^2+dy^2) of centred data')
+    if _fs(f, ['$r = np.sqrt($w[0] ** 2 + $w[1] ** 2)',
+               'np.max($r[$w[2] > 0])']) and '_center_spots' in s:
+        res.ok('geometric radius = max sqrt(dx^2+dy^2) of the centred, '
+               'transmitted rays')
     else:
         res.fail(ctx.finding('RADII', f, f.node,
                              'geometric spot radius is not the largest '
@@ -559,10 +563,12 @@ def radii(ctx):
     f = P.func('SpotDiagram.centroid')
     res.saw(f)
     s = Code(P, f)
-    if 'centroid_x = np.mean(field_data[norm_index][0])' in s and \
-            'centroid_y = np.mean(field_data[norm_index][1])' in s and \
-            'centroid.append((centroid_x, centroid_y))' in s:
-        res.ok('centroid = (mean x, mean y) of the reference wavelength')
+    if _fs(f, ['$m = $d[norm_index][2] > 0',
+               '$cx = np.mean($d[norm_index][0][$m])',
+               '$cy = np.mean($d[norm_index][1][$m])',
+               '$c.append(($cx, $cy))']):
+        res.ok('centroid = (mean x, mean y) of the transmitted rays of the '
+               'reference wavelength')
     else:
         res.fail(ctx.finding('RADII', f, f.node,
                              'centroid is not (mean x, mean y)',
@@ -636,4 +642,43 @@ def c03_trace_entry(ctx):
     from .C03 import trace_entry as _r
     return _r(ctx)
 
-RULES = [c03_trace_entry, c03_fields, arg_forward_rule, no_stale, records, arg_names_rule, list_space, record_fresh, operand_attr, parabasal, distortion, radii]
+INTENSITY_CONSUMERS = ('SpotDiagram.centroid', 'SpotDiagram.rms_spot_radius',
+                        'SpotDiagram.geometric_spot_radius',
+                        'EncircledEnergy.centroid', 'RayOperand.rms_spot_size')
+
+
+def intensity_used(ctx):
+    """spot data are [x, y, intensity]; a ray stopped by an aperture keeps
+    finite coordinates and gets intensity 0.  A statistic over x, y that never
+    looks at the intensity counts blocked rays as if they had arrived."""
+    P = ctx.P
+    res = Result('INTENSITY-USED', 'statistics of the traced spot (centroid, '
+                 'RMS / geometric radius, line spread) weight or mask the rays '
+                 'with the recorded intensity')
+    for q in INTENSITY_CONSUMERS:
+        f = P.func(q)
+        res.saw(f)
+        uses_i = False
+        for x in ast.walk(f.node):
+            if isinstance(x, ast.Subscript) and const_of(x.slice) == 2:
+                uses_i = True
+            if isinstance(x, ast.Attribute) and x.attr in ('intensity', 'i'):
+                uses_i = True
+            if isinstance(x, ast.Name) and x.id in ('intensity', 'weights',
+                                                    'energy'):
+                uses_i = True
+        # statistics delegated to a sibling that does look at the intensity
+        if uses_i:
+            res.ok(f'{q}: uses the intensity record')
+        else:
+            res.fail(ctx.finding(
+                'INTENSITY-USED', f, f.node,
+                f'{q} averages / bins the x, y records of all launched rays '
+                f'and never reads their intensity: rays blocked by an '
+                f'aperture or obscuration (intensity 0, coordinates finite) '
+                f'count like transmitted ones',
+                construct=f'{q}: intensity ignored'))
+    return res
+
+
+RULES = [intensity_used, c03_trace_entry, c03_fields, arg_forward_rule, no_stale, records, arg_names_rule, list_space, record_fresh, operand_attr, parabasal, distortion, radii]
